@@ -17,7 +17,9 @@ RULE = ("toffoli_gate and t_inverse: full unitary (register entangled with refer
         "negative and > 2pi; parity_meas for ALL Pauli strings over I,X,Y,Z of length 1..3 with and without leading "
         "minus on computational-basis, stabiliser and random input states, BOTH outcome branches of the measurement "
         "explored with the backend's probabilities (exact distribution), returned value and post-measurement state "
-        "compared with the projector semantics. Non-trivial = every case; distinct = distinct case description.")
+        "compared with the projector semantics."
+        ' Sessions: 2-3 applications come and go on one long-lived controller (closing while holding qubits, ids handed out again) and use toffoli_gate / parity_meas over Z,I strings / set_qubit_state(0|pi) / t_inverse on computational-basis registers; returned values and the reduced state of each application are compared with the classical prediction after every flush. '
+        "Non-trivial = every case; distinct = distinct case description.")
 ASSUMPTIONS = ["outcome 0 of a parity measurement denotes eigenvalue +1 of the (signed) Pauli string",
                "state preparation fidelity threshold 1 - 1e-7 (rotation steps are approximated to 1e-4 rad)"]
 SHARDS = {"quick": 4, "thorough": 16}
